@@ -657,6 +657,15 @@ class Library:
             to, frm = parse_type(m.group(1)), parse_type(m.group(2))
             return T.zext(frm.bits, to.bits, args[0])
 
+        @reg(r'^<(.*) as Into<(Color|Shape|ConvertError)>>::into$|^<(Shape|SvgError|ImageError) as Into<(.*)>>::into$', 'Into -> crate From impl (blanket impl)')
+        def _into_from(fr, name, args, ops):
+            m = re.match(r'^<(.*) as Into<(.*)>>::into$', name)
+            x, y = m.group(1), m.group(2)
+            f = I.prog.resolve('<%s as From<%s>>::from' % (y, x))
+            if f is None:
+                raise Unsupported('no From<%s> for %s' % (x, y))
+            return I.call_fn(f, list(args))
+
         @reg(r'^<(\w+) as Into<(\w+)>>::into$', 'Into (integer widening)')
         def _into_int(fr, name, args, ops):
             m = re.match(r'^<(\w+) as Into<(\w+)>>', name)
@@ -703,6 +712,11 @@ class Library:
         def _ne(fr, name, args, ops):
             r = I.call(fr, name[:-4] + '::eq', args, ops)
             return T.lnot(r)
+
+        @reg(r'^std::f64::<impl f64>::round$|^core::f64::<impl f64>::round$', 'f64::round (half away from zero)')
+        def _f_round(fr, name, args, ops):
+            from . import fpterms
+            return fpterms.round_(args[0])
 
         from . import libstr
         libstr.register(self)
